@@ -15,7 +15,7 @@ from ..factories import census
 from ..interp import Obj, Unsupported
 from ..primaries import primary_classes, simulate_facts
 from ..equiv import same
-from ..report import AnalysisError, Finding
+from ..report import AnalysisError, Finding, single
 from ..rules.c10 import outputs_of
 from ..term import Op, Sym, Term, is_num, walk
 
@@ -294,8 +294,11 @@ def check(ctx, run):
     _want_vol = Op("sqrt", (Op("relu", (_var,)),))
     for cls, want in (("pfhedge.instruments.primary.heston.HestonStock", _want_vol), ("pfhedge.instruments.primary.rough_bergomi.RoughBergomiStock", _want_vol)):
         fi = prog.lookup_method(cls, "volatility")
-        val = [r for r in interp.explore(fi, [], {}, self_obj=Obj(cls, "stock")) if not r["raises"]][0]["value"]
-        ok = same(val, want)
+        vals = [r["value"] for r in interp.explore(fi, [], {}, self_obj=Obj(cls, "stock")) if not r["raises"]]
+        if not vals:
+            raise AnalysisError(f"{cls}.volatility: no analysable path")
+        val = next((v_ for v_ in vals if not same(v_, want)), vals[0])  # every path (a memo hit is a path) must return the relation
+        ok = all(same(v_, want) for v_ in vals)
         run.oblige("C11.R4", cls.rsplit(".", 1)[-1] + ".volatility == sqrt(clamp(variance, 0))", ok, str(val))
         if not ok:
             run.fail(Finding("C11.R4", fi.qualname, str(val), "volatility must be the square root of the non-negative part of the variance", file=str(prog.modules[fi.module].path), line=fi.node.lineno))
@@ -318,15 +321,15 @@ def check(ctx, run):
         var = prog.lookup_method(cls, "variance")
         if vol is None or var is None:
             raise AnalysisError(f"anchor vanished: {cls}.volatility/variance")
-        v1 = [r for r in interp.explore(vol, [], {}, self_obj=Obj(cls, "stock")) if not r["raises"]][0]["value"]
-        v2 = [r for r in interp.explore(var, [], {}, self_obj=Obj(cls, "stock")) if not r["raises"]][0]["value"]
+        v1 = single(interp.explore(vol, [], {}, self_obj=Obj(cls, "stock")))["value"]
+        v2 = single(interp.explore(var, [], {}, self_obj=Obj(cls, "stock")))["value"]
         ok = same(v1, Op("full_like", (_spot, _sig))) and same(v2, Op("full_like", (_spot, Op("square", (_sig,)))))
         run.oblige("C11.R4", cls.rsplit(".", 1)[-1] + ": volatility = sigma, variance = sigma^2 (constant series shaped like spot)", ok, f"{v1} ; {v2}")
         if not ok:
             run.fail(Finding("C11.R4", var.qualname, f"volatility {v1}; variance {v2}", "volatility must be the square root of variance", file=str(prog.modules[var.module].path), line=var.node.lineno))
     cls = PR + "local_volatility.LocalVolatilityStock"
     var = prog.lookup_method(cls, "variance")
-    v2 = [r for r in interp.explore(var, [], {}, self_obj=Obj(cls, "stock")) if not r["raises"]][0]["value"]
+    v2 = single(interp.explore(var, [], {}, self_obj=Obj(cls, "stock")))["value"]
     ok = same(v2, Op("square", (Sym("stock.volatility", ("tensor", "buffer")),)))
     run.oblige("C11.R4", "LocalVolatilityStock.variance == volatility^2", ok, str(v2))
     if not ok:
